@@ -441,7 +441,7 @@ func main() {
 			"restarts (Open = index of the last update the disk kept, optionally lagging), recovers from the latest record and replays the log; compared after every entry and every restart with a never-restarted twin " +
 			"and with the model (sm_run); non-trivial there = at least one restart replayed a config change at or below the on disk index. " +
 			"node.go dimension (cases n*, n/4 of them): a real node with raft.Peer, node registry and pendingConfigChange; local requests (valid, refused targets, pending + busy, ordered ids), entries of other requests while one is pending, " +
-			"promotions in other spellings, own removal, snapshots restored through StateMachine.Recover -> RestoreRemotes; non-trivial there = at least one local request was committed and applied")
+			"promotions in other spellings, own removal, the node started as full / non-voting / witness, entries lagging in the apply queue, snapshots restored through StateMachine.Recover -> RestoreRemotes; non-trivial there = at least one local request was committed and applied")
 		obs := vh.Create(a.Out + "/impl.obs")
 		for _, line := range vh.ReadLines(a.Cases) {
 			runCase(line, obs, st)
